@@ -13,7 +13,7 @@
 //   2 (schedule) obs::sched_restart (engine/obs_restart.hpp) of the restarted Schedule equals that of the
 //                original Schedule at n and every later report step.
 //
-// Case string (= --replay argument):  M:<18 model digits, '.'-separated> [H:<whistctl.X1role.X1event.eventblock>] [R:<final-only>:<body.step,...>] [L:<maxwl>:<placement>:<op,op,...>] U:<0..3> F:<0|1> X:<0|1> D:<0|1> N:<1..3>
+// Case string (= --replay argument):  M:<18 model digits, '.'-separated> [H:<whistctl.X1role.X1event.eventblock>] [R:<final-only>:<body.step,...>] [L:<maxwl>:<placement>:<op,op,...>] [G:<group.phase.mode.reinj.void.order.gconprod>] U:<0..3> F:<0|1> X:<0|1> D:<0|1> N:<1..3>
 #include "vf.hpp"
 #include "canon.hpp"
 #include "obs.hpp"
@@ -83,14 +83,21 @@ struct Model {
     // 1: all operations in block 0, n = 1.  wl_max = WELLDIMS item 11 (max well lists per well).
     bool wl_on = false; int wl_max = 1, wl_place = 0; std::vector<std::string> wl_ops;
     std::string wlstr() const { std::string s = std::to_string(wl_max) + ":" + std::to_string(wl_place) + ":"; for (size_t i = 0; i < wl_ops.size(); ++i) s += (i ? "," : "") + wl_ops[i]; return s; }
+    // Group injection controls (part E): gi = {controlled group 0:G2 1:G3, phase 0:WATER 1:GAS, mode 0..5 = NONE RATE RESV REIN VREP FLD,
+    // reinjection group, voidage group (0 defaulted, 1..3 = the other groups of the tree, see gi_other()), GRUPTREE order of the siblings
+    // (0: G1 before G2, 1: G2 before G1), GCONPROD on the named group(s) 0/1}
+    bool gi_on = false; int gi[7] = {0, 0, 0, 0, 0, 0, 0};
+    std::string gistr() const { std::string s; for (int i = 0; i < 7; ++i) s += (i ? "." : "") + std::to_string(gi[i]); return s; }
+    const char* gi_ctrl() const { return gi[0] ? "G3" : "G2"; }
+    const char* gi_other(int k) const { static const char* o2[3] = {"G1", "G3", "FIELD"}; static const char* o3[3] = {"G1", "G2", "FIELD"}; return (gi[0] ? o3 : o2)[k - 1]; }
     int x1_water = 0;     // replay-only (token W:1): X1 declared with WELSPECS preferred phase WATER instead of OIL, see run.assumptions
     std::string hstr() const { return std::to_string(h[0]) + "." + std::to_string(h[1]) + "." + std::to_string(h[2]) + "." + std::to_string(h[3]); }
     std::string str() const { std::string s; for (int i = 0; i < NDIM; ++i) s += (i ? "." : "") + std::to_string(d[i]); return s; }
-    std::string describe() const { std::string s; for (int i = 0; i < NDIM; ++i) if (d[i]) s += std::string(s.empty() ? "" : ",") + DIM_NAME[i] + "=" + std::to_string(d[i]); if (wl_on) s += std::string(s.empty() ? "" : ",") + "wlist=" + wlstr(); if (rt_on) s += std::string(s.empty() ? "" : ",") + "runtime=" + rtstr(); if (h[0] || h[1] || h[2] || h[3]) s += std::string(s.empty() ? "" : ",") + "whistctl/X1role/X1event/eventblock=" + hstr(); return s.empty() ? "default" : s; }
+    std::string describe() const { std::string s; for (int i = 0; i < NDIM; ++i) if (d[i]) s += std::string(s.empty() ? "" : ",") + DIM_NAME[i] + "=" + std::to_string(d[i]); if (gi_on) s += std::string(s.empty() ? "" : ",") + "gconinje=" + gistr(); if (wl_on) s += std::string(s.empty() ? "" : ",") + "wlist=" + wlstr(); if (rt_on) s += std::string(s.empty() ? "" : ",") + "runtime=" + rtstr(); if (h[0] || h[1] || h[2] || h[3]) s += std::string(s.empty() ? "" : ",") + "whistctl/X1role/X1event/eventblock=" + hstr(); return s.empty() ? "default" : s; }
 };
 struct Case {
     Model m; int us = 0, fmt = 0, unif = 1, dbl = 0, n = 2;
-    std::string str() const { return "M:" + m.str() + " H:" + m.hstr() + (m.x1_water ? " W:1" : "") + (m.rt_on ? " R:" + m.rtstr() : "") + (m.wl_on ? " L:" + m.wlstr() : "") + " U:" + std::to_string(us) + " F:" + std::to_string(fmt) + " X:" + std::to_string(unif) + " D:" + std::to_string(dbl) + " N:" + std::to_string(n); }
+    std::string str() const { return "M:" + m.str() + " H:" + m.hstr() + (m.x1_water ? " W:1" : "") + (m.rt_on ? " R:" + m.rtstr() : "") + (m.wl_on ? " L:" + m.wlstr() : "") + (m.gi_on ? " G:" + m.gistr() : "") + " U:" + std::to_string(us) + " F:" + std::to_string(fmt) + " X:" + std::to_string(unif) + " D:" + std::to_string(dbl) + " N:" + std::to_string(n); }
     static Case parse(const std::string& s) {
         Case c; std::istringstream ss(s); std::string tok;
         while (ss >> tok) {
@@ -99,6 +106,7 @@ struct Case {
             if (k == "M") { std::istringstream vs(v); std::string t; int i = 0; while (std::getline(vs, t, '.') && i < NDIM) c.m.d[i++] = std::atoi(t.c_str()); }
             else if (k == "H") { std::istringstream vs(v); std::string t; int i = 0; while (std::getline(vs, t, '.') && i < 4) c.m.h[i++] = std::atoi(t.c_str()); }
             else if (k == "W") c.m.x1_water = std::atoi(v.c_str());
+            else if (k == "G") { c.m.gi_on = true; c.m.d[D_GCTL] = 1; std::istringstream vs(v); std::string t; int i = 0; while (std::getline(vs, t, '.') && i < 7) c.m.gi[i++] = std::atoi(t.c_str()); }
             else if (k == "L") {
                 c.m.wl_on = true; c.m.d[D_UDQ] = 1;
                 std::istringstream vs(v); std::string t; int i = 0;
@@ -176,7 +184,8 @@ static std::string schedule_text(const Model& M, int restart_n) {
         }
     };
     // ---- block 0
-    s += "GRUPTREE\n 'G1' 'FIELD' /\n 'G2' 'FIELD' /\n 'G3' 'G2' /\n/\n";
+    if (M.gi_on && M.gi[5] == 1) s += "GRUPTREE\n 'G2' 'FIELD' /\n 'G1' 'FIELD' /\n 'G3' 'G2' /\n/\n";
+    else s += "GRUPTREE\n 'G1' 'FIELD' /\n 'G2' 'FIELD' /\n 'G3' 'G2' /\n/\n";
     s += std::string("WELSPECS\n 'P1' 'G1' 1 1 2005 OIL ") + (d[D_WSPEC] == 1 ? "50.0 STD STOP NO " : "") + "/\n" + std::string(" 'P2' 'G1' 2 1 1* OIL /\n 'P3' 'G1' 3 1 1* OIL /\n 'I1' 'G3' 3 3 2010 ") + (d[D_INJ] == 1 ? "GAS" : "WATER") + " /\n/\n";
     s += std::string("COMPDAT\n") + (d[D_CONN] == 1 ? " 'P1' 1 1 1 3 OPEN 1* 12.5 0.2 1000 1.5 1* X /\n" : " 'P1' 1 1 1 3 OPEN 1* 1* 0.2 /\n") + (d[D_MSW] == 4 ? " 'P2' 2 1 1 3 OPEN 1* 1* 0.2 /\n" : " 'P2' 2 1 1 2 OPEN 1* 1* 0.2 /\n") + " 'P3' 3 1 1 2 OPEN 1* 12.5 0.25 /\n 'I1' 3 3 1 2 OPEN 1* 25.0 0.2 3* Z /\n/\n";
     // msw = 4: segment numbers interleaved between branches (main stem 1,2,5,6 on branch 1, lateral 3,4 on branch 2 off segment 2):
@@ -195,6 +204,16 @@ static std::string schedule_text(const Model& M, int restart_n) {
     if (d[D_INJ] == 0) s += "WCONINJE\n 'I1' WATER OPEN RATE 200 1* 500 /\n/\n";
     else if (d[D_INJ] == 1) s += "WCONINJE\n 'I1' GAS OPEN RATE 20000 1* 500 /\n/\n";
     else s += "WCONINJE\n 'I1' WATER OPEN BHP 200 1* 450 /\n/\n";
+    if (M.gi_on) {
+        // part E: GCONINJE with every target given, explicit or defaulted reinjection / voidage group, guide rate 12.5 RATE
+        static const char* MODE[6] = {"NONE", "RATE", "RESV", "REIN", "VREP", "FLD"};
+        const std::string rg = M.gi[3] ? std::string("'") + M.gi_other(M.gi[3]) + "'" : "1*", vg = M.gi[4] ? std::string("'") + M.gi_other(M.gi[4]) + "'" : "1*";
+        if (M.gi[6]) {
+            std::set<std::string> named; if (M.gi[3]) named.insert(M.gi_other(M.gi[3])); if (M.gi[4]) named.insert(M.gi_other(M.gi[4])); if (named.empty()) named.insert("G1");
+            s += "GCONPROD\n"; for (const auto& g : named) s += " '" + g + "' ORAT " + (g == "FIELD" ? "3000" : "1000") + " /\n"; s += "/\n";
+        }
+        s += std::string("GCONINJE\n '") + M.gi_ctrl() + "' " + (M.gi[1] ? "GAS" : "WATER") + " " + MODE[M.gi[2]] + (M.gi[1] ? " 50000 60000" : " 500 600") + " 0.75 0.875 YES 12.5 RATE " + rg + " " + vg + " /\n/\n";
+    }
     if (h[1]) {
         s += std::string("WELSPECS\n 'X1' 'G1' 1 2 1* ") + (M.x1_water ? "WATER" : "OIL") + " /\n/\nCOMPDAT\n 'X1' 1 2 1 2 OPEN 1* 1* 0.2 /\n/\n";
         if (h[1] == 1) s += "WCONPROD\n 'X1' OPEN ORAT 40 4* 30 /\n/\n";
@@ -729,6 +748,21 @@ static Outcome run_case(const Case& c) {
                 for (const auto& r : (*sched)[k].udq_active.get().iuap()) if (r.wgname == wn) for (auto cc : ctl) if (r.control == cc) return true;
                 return false;
             };
+            // Defect discriminators for group injection items, computed from the ORIGINAL group: the file has one voidage-group slot
+            // that the writer fills only under control mode VREP and cannot express FIELD (insert index 0 is turned into the group
+            // itself); a control mode FLD comes back as NONE.
+            auto ginj_suffix = [&](const std::string& key) -> std::string {
+                if (key.compare(0, 2, "G:") != 0) return "";
+                const auto sl = key.find("/inj"); if (sl == std::string::npos) return "";
+                const std::string gn = key.substr(2, sl - 2); const int phi = key[sl + 4] - '0'; const std::string item = key.substr(sl + 6);
+                if (!sched->hasGroup(gn, k)) return "";
+                const auto& g = sched->getGroup(gn, k); const Phase ph = static_cast<Phase>(phi);
+                if (!g.hasInjectionControl(ph)) return "";
+                const auto& ip = g.injectionProperties(ph);
+                if (item == "voidage_group") { if (ip.cmode != Group::InjectionCMode::VREP) return ":mode-not-VREP"; if (ip.voidage_group.value_or("") == "FIELD") return ":FIELD"; }
+                if (item == "cmode" && ip.cmode == Group::InjectionCMode::FLD) return ":FLD";
+                return "";
+            };
             auto sfail = [&](const std::string& cls, const std::string& what) {
                 if (!when.empty()) for (auto& f : o.fails) if (f.id == "sched:" + cls) return;
                 fail(o, "sched:" + cls + when, what);
@@ -752,7 +786,7 @@ static Outcome run_case(const Case& c) {
                 }
                 if (x.num != y.num) { sfail(x.cls, "step " + std::to_string(k) + " " + x.key + ": " + (x.num ? vf::fmt17(x.v) : x.s) + " vs " + (y.num ? vf::fmt17(y.v) : y.s)); continue; }
                 if (x.num) { o.obs = vf::fnv(&y.v, 8, o.obs); if (!obs::num_equal(x.v, y.v, x.p, c.fmt != 0)) sfail(x.cls + (hybrid_item(x.key) ? ":number-over-uda" : ""), "step " + std::to_string(k) + " " + x.key + ": original " + vf::fmt17(x.v) + " restarted " + vf::fmt17(y.v)); }
-                else { o.obs = vf::fnv(y.s, o.obs); if (x.s != y.s) sfail(x.cls, "step " + std::to_string(k) + " " + x.key + ": original [" + x.s.substr(0, 300) + "] restarted [" + y.s.substr(0, 300) + "]"); }
+                else { o.obs = vf::fnv(y.s, o.obs); if (x.s != y.s) sfail(x.cls + ginj_suffix(x.key), "step " + std::to_string(k) + " " + x.key + ": original [" + x.s.substr(0, 300) + "] restarted [" + y.s.substr(0, 300) + "]"); }
             }
             for (const auto& y : B.items) if (!seen.count(y.key)) sfail(y.cls, "step " + std::to_string(k) + " " + y.key + ": only the restarted schedule answers (" + (y.num ? vf::fmt17(y.v) : y.s) + ")");
         }
@@ -799,6 +833,7 @@ static void judge(const Case& c) {
     R->count("values_compared", o.compared);
     if (o.ran) R->count("cases_with_complete_loop");
     R->observe(o.obs);
+    if (std::getenv("C05_LIST")) { std::string l = cs + " =>"; for (const auto& f : o.fails) l += " " + f.id; std::fprintf(stderr, "%s\n", l.c_str()); }
     for (const auto& f : o.fails) {
         const std::string key = "C05:" + f.id + classify(c, f.id);
         R->violation(key, f.what + "; model " + c.m.describe() + "; case " + cs, "{\"case\": " + vf::jstr(cs) + "}");
@@ -830,6 +865,9 @@ int main(int argc, char** argv) {
                 "PART D (well-list histories, default model without UDAs): every sequence of 1.." + std::string(run.thorough() ? "3 WLIST operations over lists *A,*B,*C / wells P1,P2,P3 and 1..4 over *A,*B / P1,P2,P3" : "3 WLIST operations over lists *A,*B / wells P1,P2") +
                 " from {NEW {P1,P2}, NEW {P2}, [NEW {P3,P1}], ADD w, DEL w, MOV w} per list (first operation NEW on *A, no ADD/DEL/MOV on an unknown list) x placement {one operation per block with n = min(len,3), all in block 0 with n = 1} x WELLDIMS item 11 in {1,2,3} >= largest membership" + std::string(run.quick() ? " (quick: smallest legal value and 3)" : "") +
                 "; after the restart step WELTARG '*L' ORAT through every non-empty list (block 3) and WELOPEN '*L' SHUT through the last one (block 4); compared: members and order of every list, lists of every well, and the controls/status of the wells; "
+                "PART E (group injection controls, default model without its own group controls): GCONINJE on " + std::string(run.thorough() ? "{G2,G3}" : "G2") + " x phase {WATER,GAS} x mode {NONE,RATE,RESV,REIN,VREP,FLD} (all four targets, guide rate 12.5 RATE) "
+                "x reinjection group x voidage group in {defaulted, each other group of the tree incl. FIELD}" + std::string(run.quick() ? " (quick: varied one at a time)" : " (full product)") + " x GRUPTREE order of the siblings {G1 first, G2 first} x GCONPROD on the named group(s) {no,yes} x n " + std::string(run.quick() ? "{1,3}" : "{1,2,3}") +
+                "; compared per phase: cmode, control set, the four targets, reinjection and voidage group, guide rate and its definition, availability for higher-level control, injection_controls; "
                 "oracle 2: obs::sched_restart query list equal between Schedule(deck) and Schedule(deck+RESTART+SKIPREST, rst_state) at n..4 (REAL-stored quantities to 1.2e-7 rel)";
     run.assumptions = {
         "a restart file written at report step n describes schedule state n-1 (sim_step); 'flowing well' = Schedule status OPEN in that state",
@@ -965,6 +1003,26 @@ int main(int argc, char** argv) {
             }
         }
     }
+    // ---- part E: group injection controls
+    uint64_t gmodels = 0;
+    {
+        const int nctrl = run.thorough() ? 2 : 1;
+        for (int cg = 0; cg < nctrl && !stop; ++cg) for (int ph = 0; ph < 2; ++ph) for (int md = 0; md < 6; ++md) for (int rg = 0; rg < 4; ++rg) for (int vg = 0; vg < 4; ++vg) for (int ord = 0; ord < 2; ++ord) for (int gp = 0; gp < 2; ++gp) {
+            if (run.quick() && rg != 0 && vg != 0) continue;          // quick: reinjection / voidage group varied one at a time
+            ++gmodels;
+            for (int n = 1; n <= 3; ++n) {
+                if (run.quick() && n == 2) continue;
+                if (!run.mine()) continue;
+                if (run.timed_out()) { stop = true; break; }
+                Case c; c.m.gi_on = true; c.m.d[D_GCTL] = 1; c.m.gi[0] = cg; c.m.gi[1] = ph; c.m.gi[2] = md; c.m.gi[3] = rg; c.m.gi[4] = vg; c.m.gi[5] = ord; c.m.gi[6] = gp;
+                c.us = 0; c.fmt = 0; c.unif = 1; c.dbl = 0; c.n = n;
+                judge(c);
+                if (run.samples.size() < 11 && md == 4 && vg == 1 && ord == 1 && n == 3) run.sample_str(c.str() + "  (" + c.m.describe() + ")");
+            }
+            if (stop) break;
+        }
+    }
+    if (run.shard == 0) run.count("group_injection_models", (long long)gmodels);
     if (run.shard == 0) run.count("wlist_history_models", (long long)wmodels);
     if (run.shard == 0) run.count("runtime_history_models", (long long)rmodels);
     if (run.shard == 0) run.count("history_control_models", (long long)hmodels);
